@@ -23,7 +23,10 @@
 /* pops attempted by the final drain: one more than can possibly be left */
 #define ISP(k) ((k) == 1 || (k) == 4)
 #define NPUSHOPS (ISP(OA0) + ISP(OA1) + ISP(OB0) + ISP(OB1) + ISP(OC0) + ISP(OC1))
-#define DRAIN_N ((PRE_PUSH - PRE_POP + NPUSHOPS + 1) < NDRAIN ? (PRE_PUSH - PRE_POP + NPUSHOPS + 1) : NDRAIN)
+#ifndef POST_PUSH
+#define POST_PUSH 0   /* pushes executed sequentially after the concurrent phase and before the drain (bounded units) */
+#endif
+#define DRAIN_N ((PRE_PUSH - PRE_POP + NPUSHOPS + POST_PUSH + 1) < NDRAIN ? (PRE_PUSH - PRE_POP + NPUSHOPS + POST_PUSH + 1) : NDRAIN)
 #ifndef ITEMS_PER_PAGE
 #define ITEMS_PER_PAGE 1
 #endif
@@ -126,6 +129,7 @@ enum { K_NONE = 0, K_PUSH = 1, K_POP = 2, K_BPOP = 3, K_TRYPUSH = 4, K_ABORT = 5
 struct op { int used, kind, done, ok; unsigned inv, res, val; } H[MAXOPS];   /* index = tid*2 + slot */
 unsigned clk;
 int a_retried;
+int post_threw; void vp_post_threw(void) { post_threw = 1; }
 void vp_inv(u32 tid, u32 slot, u32 kind, u32 val) { struct op* o = &H[tid * 2 + slot]; o->used = 1; o->kind = kind; o->val = val; o->inv = ++clk; }
 void vp_res(u32 tid, u32 slot, u32 ok, u32 val) {
   struct op* o = &H[tid * 2 + slot]; o->done = 1; o->ok = ok; o->res = ++clk;
@@ -138,7 +142,8 @@ static const int KIND[MAXOPS] = { OA0, OA1, OB0, OB1, OC0, OC1 };
 static unsigned mkval(unsigned id) { return ((unsigned)vp_nd() << 8) | id; }   /* symbolic payload, unique low byte */
 
 /* sequential specification state used by the checker */
-#define SPECMAX (PRE_PUSH + MAXOPS + 1)
+#define SPECMAX (PRE_PUSH + MAXOPS + POST_PUSH + 1)
+#define POSTVAL(i) (0x3000u + (unsigned)(i))
 unsigned drained[SPECMAX]; int ndrained;
 void vp_drained(u32 v) { drained[ndrained++] = v; }
 
@@ -161,6 +166,7 @@ static int try_perm(const int* perm, int n) {
     else match &= !o->ok;
   }
   /* what is left must be exactly what the final sequential drain returned, in order */
+  for (int i = 0; i < POST_PUSH; i++) { if (tail - head >= CAP) return 0; content[tail++] = POSTVAL(i); }   /* sequential post-phase pushes */
   match &= (tail - head == ndrained || (ndrained == DRAIN_N && tail - head > DRAIN_N));
   for (int i = 0; head + i < tail && i < SPECMAX; i++) match &= (i >= ndrained || drained[i] == content[head + i]);
   return match;
@@ -276,6 +282,12 @@ int main(void) {
   VP_ASSERT(vp_q_empty(&Q) == (PRE_PUSH - PRE_POP + npush - npop_ok == 0), "empty() wrong at quiescence");
 
   /* final sequential drain with the real try_pop: nothing lost, FIFO order of the remainder */
+#if POST_PUSH
+  vp_cur = 0; vp_thr_post_start(&Q, POST_PUSH, POSTVAL(0), POSTVAL(1));
+  VP_RUNMAX(vp_thr_post)
+  VP_ASSERT(vp_thr_post_fin && !post_threw, "a push after the concurrent phase slept, spun or threw although the queue has room and nobody aborts");
+  __CPROVER_assume(vp_thr_post_fin);
+#endif
   vp_cur = 0; vp_thr_drain_start(&Q, DRAIN_N);
   VP_RUNMAX(vp_thr_drain)
 #if FAULTS || ABORTS
@@ -286,14 +298,14 @@ int main(void) {
   VP_ASSERT(vp_thr_drain_fin, "final drain got stuck: an item that was pushed can never be popped (lane hand-off lost)");
   __CPROVER_assume(vp_thr_drain_fin);
   {
-    int expect = PRE_PUSH - PRE_POP + npush - npop_ok;
+    int expect = PRE_PUSH - PRE_POP + npush - npop_ok + POST_PUSH;
     VP_ASSERT(ndrained == (expect < DRAIN_N ? expect : DRAIN_N), "items lost or invented: drain count != pushes - pops");
     VP_ASSERT((long)vp_q_size(&Q) == (long)(expect - ndrained), "size() wrong after the drain");
     if (expect < DRAIN_N) VP_ASSERT(vp_q_invalid(&Q) == 0 && vp_q_head(&Q) == vp_q_tail(&Q), "tickets or invalid entries left after the queue was drained empty");
   }
   VP_ASSERT(linearizable(), "history is not linearizable to a sequential (bounded) FIFO queue: no order of the concurrent calls that respects real time explains the results (e.g. try_pop said empty / try_push said full although the queue never was during the call, FIFO or real-time push order broken, push took effect on a full queue)");
 #if ITEMS_PER_PAGE == 1
-  if (PRE_PUSH - PRE_POP + npush - npop_ok <= DRAIN_N) VP_ASSERT(live_allocs == (BOUNDED ? 0 : 1), "page leak or double free: live allocations after drain != 1 (the queue representation)");
+  if (PRE_PUSH - PRE_POP + npush - npop_ok + POST_PUSH <= DRAIN_N) VP_ASSERT(live_allocs == (BOUNDED ? 0 : 1), "page leak or double free: live allocations after drain != 1 (the queue representation)");
 #endif
 #ifdef REQ_RETRY_A
   /* scenario option: the reachability witness must come from a run in which thread a's retry loop went round at least once and the call
